@@ -83,7 +83,8 @@ REQUIRED_CLASSES = (["entry:" + e for e in CORE + WRAPPERS] + ["repr:scalar"] + 
                     + ["donor:none", "donor:zero", "donor:pos", "donor-distinguishable", "donor-indistinguishable"]
                     + ["family:" + f for f in FAMILIES] + ["species:" + s for s in SPECIES] + ["lattice:A"]
                     + ["species-container:dict", "species-container:dict-desc", "species-container:ndarray", "nel:zero", "nel:below-ne", "nel:above-ne",
-                       "scalar-type:float", "scalar-type:float64", "scalar-type:int-te", "between-nodes", "outside-lcfs"])
+                       "scalar-type:float", "scalar-type:float64", "scalar-type:int-te", "between-nodes", "outside-lcfs",
+                       "sequence:donor-charge-alternates", "sequence:donor-charge-distinguishable"])
 BUDGET_S = {"quick": 1200, "thorough": 3000}   # wall-clock caps only; CPU need: ~250 s quick, ~4500 s thorough (16 idle cores: ~20 s / ~5 min)
 CHUNK = 1
 
@@ -673,6 +674,45 @@ def group_scalar(ctx):
                     agree_entry(ctx, "match_plasma_neutrality", "densities != fractional_abundance * (n_e - q_species)/<z> at " + ctx.ptdesc(p),
                                 res[k], base[k] * max(p["ne"] - qs[k], 0.0) / zm, neutral_expect(ctx, p, qs[k])[0],
                                 neutral_expect(ctx, p, qs[k], p["x0"], p["zmean0"])[0], 1e-9)
+    _donor_alternation(ctx)
+
+
+def _donor_alternation(ctx):
+    """One process, one data source, one donor element - the donor's charge state alternates between calls (He0, He+, He0, ... after
+    the calls above, which all used the case's own donor).  Every call must solve the balance of the donor it was given."""
+    np, ib, R = _G["np"], _G["ib"], _G["R"]
+    if ctx.dcls != "pos":
+        return
+    ctx.classes.append("sequence:donor-charge-alternates")
+    he = _G["el"][2]
+    order = ((1 - ctx.dq) if ctx.dz == 2 else 0, 1, 0, 0, 1) if ctx.dz == 2 else (0, 1, 0, 1, 1)
+    for step, dq in enumerate(order):
+        for k, p0 in enumerate(ctx.pts):
+            if p0["nd"] is None or k % 3:
+                continue
+            key = (ctx.fam, ctx.Z, p0["ne"], p0["te"], p0["nd"], 2, dq)
+            x_ref, S, A = R.fractions(ctx.fam, ctx.Z, p0["ne"], p0["te"], p0["nd"], 2, dq)
+            other = R.fractions(ctx.fam, ctx.Z, p0["ne"], p0["te"], p0["nd"], 2, 1 - dq)[0]
+            for entry, fn, args in (("fractional_abundance", ib.fractional_abundance, (p0["ne"], p0["te"])),
+                                    ("from_elementdensity", ib.from_elementdensity, (1.0e-3 * p0["ne"], p0["ne"], p0["te"]))):
+                r, err = ctx.call(fn, ctx.ad, ctx.el, *args, tcx_donor=he, tcx_donor_n=p0["nd"], tcx_donor_charge=dq)
+                ctx.n += 1
+                if err is not None:
+                    ctx.failed(entry, "scalar:donor-charge-alternates", err, "scalar call at " + ctx.ptdesc(p0))
+                    continue
+                prof = _profile(ctx, entry, "scalar:donor-charge-alternates", r, (1,))
+                if prof is None:
+                    continue
+                x = prof[:, 0] / (1.0 if entry == "fractional_abundance" else 1.0e-3 * p0["ne"])
+                ctx.states.append(key)
+                if float(np.max(np.abs(x_ref - other))) > DISTINCT:
+                    ctx.nontrivial.append((entry, "donor-charge-alternates", key, step))
+                    ctx.classes.append("sequence:donor-charge-distinguishable")
+                if float(np.max(np.abs(x - x_ref))) > TOL_X:
+                    which = "equals-the-balance-of-the-other-donor-charge" if float(np.max(np.abs(x - other))) <= TOL_X else "differs-from-closed-form"
+                    ctx.V("%s:sequence:donor-charge-alternates:%s" % (entry, which),
+                          "call #%d of the sequence He(%s) [after the case's own donor] with tcx_donor_charge=%d at %s"
+                          % (step + 1, ",".join(str(q) for q in order), dq, ctx.ptdesc(p0)), x_ref, x)
 
 
 def _zm(x):
